@@ -135,7 +135,7 @@ func c05pool(lo, hi *big.Int, rng *core.Rng) []*big.Int {
 }
 
 func C05(c *core.Ctx) {
-	c.Rule = "generated modules of leaves/leaf-lists: every numeric base type (+decimal64, string length) × typedef chains of depth 0–3 × restriction texts (alternatives, open ends, min/max, single values, negative and 64-bit bounds) × candidate values at and around every bound, base min/max, 0; written through SetValue, UpsertFrom(JSON) and UpsertFrom(node); store compared before/after. non-trivial = value within ±1 of a bound or at a base-type extreme; distinct by (leaf type text, value, path)"
+	c.Rule = "generated modules of leaves/leaf-lists: every numeric base type (+decimal64, string length) × typedef chains of depth 0–3 × restriction texts (alternatives, open ends, min/max, single values, negative and 64-bit bounds) × candidate values at and around every bound, base min/max, 0; written through SetValue, UpsertFrom(JSON) and UpsertFrom(node); store compared before/after. non-trivial = value within ±1 of a bound or at a base-type extreme; distinct by (leaf type text, value, path); directed (c05typedValues): 24 typed values (val.Enum, val.Bits, val.IdentRef, lists, values of another kind) written with Selection.Set and handed to UpsertFrom by a source node: stored iff a value of the type"
 	c.Assumptions = append(c.Assumptions,
 		"regexp matching is an uninterpreted predicate: the harness evaluates each pattern with Go's regexp and passes the booleans to the model",
 		"decimal64 values/bounds are generated with ≤2 fraction digits and |x| ≤ 10^6 so that float64 comparison agrees with exact decimal comparison",
@@ -150,6 +150,97 @@ func C05(c *core.Ctx) {
 		c05module(c, rng.Fork(), mi)
 	}
 	c05membership(c, rng)
+	c05typedValues(c)
+}
+
+// values that were not made for the leaf they are written to - handed to Set as typed values by the caller, or to
+// the editor by a node of the caller's: accepted only if they are values of the leaf's type
+func c05typedValues(c *core.Ctx) {
+	y := `module tv { namespace "urn:tv"; prefix tv; revision 2020-01-01; identity b0; identity i1 { base b0; } identity other;
+  leaf e { type enumeration { enum a; enum b; } } leaf-list el { type enumeration { enum a; enum b; } }
+  leaf bo { type boolean; } leaf i { type int32 { range "1..10"; } } leaf s { type string { length "1..3"; } }
+  leaf bt { type bits { bit a; bit b; } } leaf-list btl { type bits { bit a; bit b; } } leaf-list idl { type identityref { base b0; } } leaf id { type identityref { base b0; } }
+  leaf u { type union { type int8 { range "1..5"; } type string { length "3"; } } } leaf d { type decimal64 { fraction-digits 2; } }
+  leaf lr { type leafref { path "/tv:e"; } } }`
+	m, err := parser.LoadModuleFromString(nil, y)
+	if err != nil {
+		c.Violation(core.Replay{Kind: "harness", Summary: "c05typedValues module: " + err.Error(), NoInputFound: true})
+		return
+	}
+	for _, tc := range []struct {
+		name, leaf string
+		v          val.Value
+		ok         bool
+	}{
+		{"an enum the type does not declare", "e", val.Enum{Id: 9, Label: "zz"}, false},
+		{"a declared enum", "e", val.Enum{Id: 1, Label: "b"}, true},
+		{"an undeclared enum in a list", "el", val.EnumList{{Id: 0, Label: "a"}, {Id: 7, Label: "zz"}}, false},
+		{"declared enums in a list", "el", val.EnumList{{Id: 0, Label: "a"}, {Id: 1, Label: "b"}}, true},
+		{"an undeclared enum through a leafref", "lr", val.Enum{Id: 9, Label: "zz"}, false},
+		{"a string for a boolean", "bo", val.String("abc"), false},
+		{"a boolean", "bo", val.Bool(true), true},
+		{"a decimal with a fraction for an int32", "i", val.Decimal64(5.5), false},
+		{"a list for a leaf", "i", val.Int32List{1, 2}, false},
+		{"an int32 in range", "i", val.Int32(5), true},
+		{"an int32 out of range", "i", val.Int32(50), false},
+		{"a single value for a leaf-list", "idl", val.String("i1"), false},
+		{"a bit the type does not declare", "bt", val.Bits{Positions: 64, Labels: []string{"zz"}}, false},
+		{"declared bits", "bt", val.Bits{Positions: 3, Labels: []string{"a", "b"}}, true},
+		{"an undeclared bit in a list", "btl", val.BitsList{{Positions: 1, Labels: []string{"a"}}, {Positions: 1024, Labels: []string{"zz"}}}, false},
+		{"an identity that does not exist", "id", val.IdentRef{Label: "bogus"}, false},
+		{"an identity not derived from the base", "id", val.IdentRef{Label: "other"}, false},
+		{"a derived identity", "id", val.IdentRef{Label: "i1"}, true},
+		{"a list with an identity that does not exist", "idl", val.IdentRefList{{Label: "i1"}, {Label: "bogus"}}, false},
+		{"a number no member of the union takes", "u", val.Int32(9), false},
+		{"a boolean for a union of number and string", "u", val.Bool(true), false},
+		{"a member value of the union", "u", val.Int32(3), true},
+		{"a string for a decimal64", "d", val.String("x"), false},
+		{"a string too long", "s", val.String("abcd"), false},
+	} {
+		for _, path := range []string{"Set", "node"} {
+			store := map[string]interface{}{}
+			var werr error
+			e := safeDo(func() error {
+				b := node.NewBrowser(m, nodeutil.ReflectChild(store))
+				if path == "Set" {
+					sel, err := b.Root().Find(tc.leaf)
+					if err != nil || sel == nil {
+						return fmt.Errorf("find: %v", err)
+					}
+					werr = sel.Set(tc.v)
+					return nil
+				}
+				// a node of the caller's that answers the read of this leaf with the value as it is
+				src := &nodeutil.Basic{OnField: func(r node.FieldRequest, hnd *node.ValueHandle) error {
+					if r.Meta.Ident() == tc.leaf {
+						hnd.Val = tc.v
+					}
+					return nil
+				}}
+				werr = b.Root().UpsertFrom(src)
+				return nil
+			})
+			c.Evaluations++
+			c.Count("typed_value", path+map[bool]string{true: " member", false: " not a member"}[tc.ok])
+			c.Distinct("typedvalue " + path + tc.name)
+			_, stored := store[tc.leaf]
+			bad := ""
+			switch {
+			case e != nil:
+				bad = e.Error()
+			case tc.ok && (werr != nil || !stored):
+				bad = fmt.Sprintf("refused (%v), it is a value of the type", werr)
+			case !tc.ok && stored:
+				bad = fmt.Sprintf("stored as %v (error %v)", store[tc.leaf], werr)
+			case !tc.ok && werr == nil:
+				bad = "not stored and no error"
+			}
+			if bad != "" {
+				c.Violation(core.Replay{Kind: "property-failure", Class: "typed-value-" + path, Summary: fmt.Sprintf("%s: %s written to %s as %T %v: %s", path, tc.name, tc.leaf, tc.v, tc.v, bad),
+					Input: map[string]interface{}{"yang": y, "path": path, "leaf": tc.leaf, "value": fmt.Sprintf("%T %v", tc.v, tc.v)}, Impl: bad, Spec: map[bool]string{true: "accepted and stored", false: "an error, nothing stored"}[tc.ok]})
+			}
+		}
+	}
 }
 
 func c05module(c *core.Ctx, rng *core.Rng, mi int) {
